@@ -638,6 +638,79 @@ def rule_conditional(chk, prog, tier):
     r.exhaustive = True
 
 
+# ------------------------------------------------------------------ C05.i type specifier multisets
+
+SPEC_TABLE = {   # C11 6.7.2p2: multiset of specifiers -> type
+    ('void',): 'void', ('char',): 'char', ('signed', 'char'): 'schar', ('unsigned', 'char'): 'uchar',
+    ('short',): 'short', ('signed', 'short'): 'short', ('short', 'int'): 'short', ('signed', 'short', 'int'): 'short',
+    ('unsigned', 'short'): 'ushort', ('unsigned', 'short', 'int'): 'ushort',
+    ('int',): 'int', ('signed',): 'int', ('signed', 'int'): 'int', ('unsigned',): 'uint', ('unsigned', 'int'): 'uint',
+    ('long',): 'long', ('signed', 'long'): 'long', ('long', 'int'): 'long', ('signed', 'long', 'int'): 'long',
+    ('unsigned', 'long'): 'ulong', ('unsigned', 'long', 'int'): 'ulong',
+    ('long', 'long'): 'llong', ('signed', 'long', 'long'): 'llong', ('long', 'long', 'int'): 'llong', ('signed', 'long', 'long', 'int'): 'llong',
+    ('unsigned', 'long', 'long'): 'ullong', ('unsigned', 'long', 'long', 'int'): 'ullong',
+    ('float',): 'float', ('double',): 'double', ('long', 'double'): 'ldouble', ('_Bool',): 'bool',
+}
+
+
+def rule_specifiers(chk, prog, tier):
+    r = chk.rule('C05.i', 'every multiset of type specifiers, in every order and interleaved with qualifiers and storage-class specifiers, denotes the type of C11 6.7.2p2 or is diagnosed', floor=1500,
+                 oracle='C11 6.7.2p2')
+    import itertools, par
+    fn = prog.require_func('declspecs', 'decl.c')
+    KW = {'void': 'TVOID', 'char': 'TCHAR', 'short': 'TSHORT', 'int': 'TINT', 'long': 'TLONG', 'float': 'TFLOAT', 'double': 'TDOUBLE', 'signed': 'TSIGNED', 'unsigned': 'TUNSIGNED', '_Bool': 'TBOOL'}
+    table = {tuple(sorted(k)): v for k, v in SPEC_TABLE.items()}
+    seqs = []
+    for n in (1, 2, 3):
+        for ms in itertools.combinations_with_replacement(sorted(KW), n):
+            for p in set(itertools.permutations(ms)): seqs.append(p)
+    for ms in itertools.combinations_with_replacement(sorted(KW), 4):
+        perms = sorted(set(itertools.permutations(ms)))
+        if tuple(sorted(ms)) in table: seqs += perms
+        else: seqs += perms[:2]
+    seqs.append(('long', 'long', 'long')); seqs.append(('unsigned', 'long', 'long', 'long', 'int'))
+    # qualifiers / storage class in between do not change the type
+    extra = [('const', 'unsigned', 'static', 'long'), ('long', 'volatile', 'int', 'long'), ('static', 'short', 'const', 'unsigned', 'int'), ('char', 'const', 'signed'), ('extern', 'long', 'double'), ('double', 'const', 'long')]
+    KW2 = dict(KW); KW2.update({'const': 'TCONST', 'volatile': 'TVOLATILE', 'static': 'TSTATIC', 'extern': 'TEXTERN'})
+    chunks = [(seqs + extra)[k::32] for k in range(32)]
+    def work(chunk):
+        out = []
+        for seq in chunk:
+            def runner(it):
+                w = World(prog, it=it, target='x86_64-sysv')
+                toks = [KW2[k] for k in seq] + ['TIDENT', 'TSEMICOLON']
+                tokobj = it.gobj('tok'); st = {'i': 0}
+                def load():
+                    k = toks[min(st['i'], len(toks) - 1)]
+                    tokobj.f[('kind',)] = ev(prog, k); tokobj.f[('lit',)] = Ptr(it.mkstr(list(b'x'), 'x'), (0,)) if k == 'TIDENT' else None
+                    tokobj.f[('loc', 'file')] = None; tokobj.f[('loc', 'line')] = 1; tokobj.f[('loc', 'col')] = 1
+                def nxt(i2, a, e): st['i'] += 1; load(); return None
+                it.models.update({'next': nxt, 'attr': lambda i2, a, e: 0, 'gnuattr': lambda i2, a, e: 0, 'scopegetdecl': lambda i2, a, e: None,
+                                  'fatal': lambda i2, a, e: (_ for _ in ()).throw(Terminal('fatal', a)), 'error': lambda i2, a, e: (_ for _ in ()).throw(Terminal('error', a))})
+                load()
+                sc = Obj('sc', 'local'); sc.f[()] = UNINIT; al = Obj('al', 'local'); al.f[()] = UNINIT
+                qt = it.call(fn, [Ptr(Obj('scope', 'heap'), ()), Ptr(sc, ()), None, Ptr(al, ())])
+                u = {n: w.t(n) for n in ('void', 'char', 'schar', 'uchar', 'short', 'ushort', 'int', 'uint', 'long', 'ulong', 'llong', 'ullong', 'float', 'double', 'ldouble', 'bool')}
+                t = qt.f[('type',)]
+                return (name_of_type(u, t) if t is not None else None), st['i']
+            runs = explore(prog, runner, {}, max_runs=4, on_unsupported='keep')
+            run = runs[0]
+            out.append((seq, 'multi' if len(runs) != 1 else run.outcome, run.value if run.outcome == 'return' else str(run.detail)))
+        return out
+    for res in par.pmap(work, chunks):
+        for seq, outcome, val in res:
+            if outcome in ('unsupported', 'multi'):
+                raise AnalysisBroken('declspecs %s: %s' % (' '.join(seq), val))
+            specs = tuple(sorted(k for k in seq if k in KW))
+            want = table.get(specs)
+            key = 'specifiers:' + ' '.join(seq)
+            if want is None:
+                r.instance(outcome == 'terminal:error', key, 'decl.c:%s' % fn.get('line'), 'not a valid combination (6.7.2p2): must be diagnosed; cproc yields %s' % (val,))
+            else:
+                r.instance(outcome == 'return' and val == (want, len(seq)), key, 'decl.c:%s' % fn.get('line'), 'denotes %s; cproc: %s %s' % (want, outcome, val))
+    r.exhaustive = True
+
+
 # ------------------------------------------------------------------ C05.d integer literal typing
 
 LIT_ROWS = {   # suffix class -> (decimal list, non-decimal list)   C11 6.4.4.1p5
@@ -848,6 +921,7 @@ def run(chk, tier):
     chk.guard('C05.c2', lambda: rule_pointer_scale(chk, prog, tier))
     chk.guard('C05.g', lambda: rule_unary(chk, prog, tier))
     chk.guard('C05.h', lambda: rule_conditional(chk, prog, tier))
+    chk.guard('C05.i', lambda: rule_specifiers(chk, prog, tier))
     chk.guard('C05.d', lambda: rule_literals(chk, prog, tier))
     chk.guard('C05.d2', lambda: rule_literal_base(chk, prog, tier))
     chk.guard('C05.f', lambda: rule_descriptors(chk, prog, tier))
